@@ -119,7 +119,7 @@ PROPS['C10'] = dict(
     level_note='sigma_min from Eigen SelfAdjointEigenSolver<complex long double>; exact singularity only for real integer matrices with integer shift (128-bit Bareiss).',
     units=[dict(name='c10', src='c10_bkldlt.cpp')],
     runs=dict(
-        quick=[dict(unit='c10', cases=5000, workers=4)],
+        quick=[dict(unit='c10', cases=15000, workers=4)],
         thorough=[dict(unit='c10', cases=80000, workers='all', set=dict(nmax=80))],
     ),
     min=dict(quick=dict(cases=15000, nontrivial=8000, classes={'class/small_integer': 1000, 'class/zero_diagonal': 500, 'DenseSymShiftSolve wrapper': 1000, 'n=1': 50, 'reported_singular': 100, 'recompute_after_failure': 1000, 'exact_zero_line': 1000, 'exact_zero_line_at_n-2': 100, 'object_reused_after_other_system': 3000, 'class/wild_entry_scales': 1200, 'rhs_is_M_times_y': 4000}),
@@ -150,7 +150,7 @@ PROPS['C01'] = dict(
                'Restart count comes from the guarded observer. Zero matrices are left to C13.',
     units=real_units('c01', 'c01_sym.cpp'),
     runs=dict(
-        quick=[dict(unit='c01_d', cases=3000, workers=2), dict(unit='c01_f', cases=3000, workers=1), dict(unit='c01_l', cases=3000, workers=1)],
+        quick=[dict(unit='c01_d', cases=6000, workers=2), dict(unit='c01_f', cases=6000, workers=1), dict(unit='c01_l', cases=6000, workers=1)],
         thorough=[dict(unit='c01_d', cases=40000, workers=8, set=dict(nmax=100)), dict(unit='c01_f', cases=40000, workers=4, set=dict(nmax=60)), dict(unit='c01_l', cases=40000, workers=4, set=dict(nmax=60))],
     ),
     min=dict(quick=dict(cases=10000, nontrivial=4000, classes={'partial_convergence': 20, 'history_with_2+_computes': 500, 'compute_without_fresh_init': 300, 'breakdown_seen_by_observer': 100,
